@@ -1163,10 +1163,21 @@ impl<K: Elem, V: Elem> MapDrv<K, V> {
                 eff = 4;
             }
             4 => {
-                drop(v);
-                drop(k);
-                self.map.entry_ref(&kr).or_default().check();
-                eff = 40;
+                if rng.chance(1, 2) {
+                    drop(v);
+                    drop(k);
+                    self.map.entry_ref(&kr).or_default().check();
+                    eff = 40;
+                } else {
+                    // Q = K: or_insert_with_key needs K: Borrow<Q> and &Q: Into<K>
+                    let r = self.map.entry_ref(&k).or_insert_with_key(|q| {
+                        q.check();
+                        v
+                    });
+                    r.check();
+                    drop(k);
+                    eff = 60;
+                }
             }
             5 => {
                 // Q = K here: EntryRef::key needs K: Borrow<Q>
@@ -1344,6 +1355,11 @@ impl<K: Elem, V: Elem> MapDrv<K, V> {
                     self.model.insert(id, ig, 0, 0);
                 }
             }
+            60 => {
+                if !present {
+                    self.model.insert(id, ig, vv, vg);
+                }
+            }
             5 => {
                 self.model.remove(id);
             }
@@ -1496,11 +1512,14 @@ impl<K: Elem, V: Elem> MapDrv<K, V> {
         oplog!(ctx, "extract_if(salt {:#x}, limit {})", salt, limit as i64);
         let mut got = Vec::new();
         {
+            let len0 = self.map.len();
             let mut it = self.map.extract_if(|k, v| {
                 k.check();
                 v.check();
                 !pred_id(salt, k.id())
             });
+            let (lo, hi) = it.size_hint();
+            crate::check!(lo == 0 && hi.map_or(true, |h| h >= len0), "ExtractIf::size_hint() = ({}, {:?}) for {} elements", lo, hi, len0);
             while got.len() < limit {
                 match it.next() {
                     Some((k, v)) => {
